@@ -185,7 +185,7 @@ def run(ctx):
     with_safe = not ctx.quick
     n = 0
     hmax = 0.0
-    for cnt, viol, hm in ctx.pmap(chunk_forward, [(r, with_safe) for r in range(256)]):
+    for cnt, viol, hm in ctx.pmap_chunks("mc.props.c10", "chunk_forward", [[r, with_safe] for r in range(256)]):
         n += cnt
         hmax = max(hmax, hm)
         ctx.add_violations(viol)
@@ -208,7 +208,7 @@ def run(ctx):
     Cs = [0.5 * i / step for i in range(step + 1)] + [0.001, 0.37]
     Hs = sorted({(off + i * hstep) % 360.0 for i in range(int(360 / hstep))} | {0.0, 360.0, 359.999, 29.23, 142.5, 264.05})
     m = 0
-    for cnt, viol in ctx.pmap(chunk_inverse, [(L, Cs, Hs) for L in Ls]):
+    for cnt, viol in ctx.pmap_chunks("mc.props.c10", "chunk_inverse", [[L, Cs, Hs] for L in Ls]):
         m += cnt
         ctx.add_violations(viol)
     ctx.sub("inverse_grid", states=m, transitions=2 * m, evaluations=m, traces=m,
